@@ -74,7 +74,12 @@ def _lit(v):
 def render(sites, initial=INITIAL) -> str:
     """Source text of the client program.  One lambda per line, `def` header on its own line:
     layout robustness is C03's business, not the claimed properties'."""
-    out = ["import simcfg\n"]
+    out = ["import simcfg\n",
+           "class _Boom:\n",
+           "    @property\n",
+           "    def val(self):\n",
+           "        raise RuntimeError('injected fault inside the capture step')\n",
+           "BOOM = _Boom()\n"]
     for g in GLOBALS:
         out.append(f"{g.lstrip('@')} = {_lit(initial[g])}\n")
     out.append("class K0:\n")
